@@ -1419,3 +1419,26 @@ M('C12', 'proximal gradient steps along +grad g', 'odl/solvers/nonsmooth/proxima
 M('C12', 'forward-backward drops the smooth gradient', 'odl/solvers/nonsmooth/forward_backward.py',
   "        tmp_1 = grad_h(x) + sum(Li.adjoint(vi) for Li, vi in zip(L, v))",
   "        tmp_1 = sum(Li.adjoint(vi) for Li, vi in zip(L, v))", 'C12-R6')
+M('C11', 'steepest descent caches the gradient before the projection', 'odl/solvers/smooth/gradient.py',
+  """    for _ in range(maxiter):
+        grad(x, out=grad_x)
+
+        dir_derivative = -grad_x.norm() ** 2
+        if np.abs(dir_derivative) < tol:
+            return  # we have converged
+        step = line_search(x, -grad_x, dir_derivative)
+
+        x.lincomb(1, x, -step, grad_x)
+
+        if projection is not None:""", """    grad(x, out=grad_x)
+    for _ in range(maxiter):
+        dir_derivative = -grad_x.norm() ** 2
+        if np.abs(dir_derivative) < tol:
+            return  # we have converged
+        step = line_search(x, -grad_x, dir_derivative)
+
+        x.lincomb(1, x, -step, grad_x)
+
+        grad(x, out=grad_x)
+
+        if projection is not None:""", 'steepest_descent')
